@@ -4,6 +4,10 @@ import json, os
 HERE = os.path.dirname(os.path.dirname(os.path.abspath(__file__)))
 
 CHECKS = {
+ 'C03': dict(level='fault_enumeration', design='2/C03',
+   technique='exhaustive enumeration of single edits of the cleartext handshake (version lines, every KEXINIT field and name-list, every key exchange message) by an on-path editor between a real client and server for every non-GSS kex method, plus exhaustive enumeration of preference-list pairs through real handshakes',
+   text='For each of the 31 non-GSS key exchange methods and each direction every edit in the catalogue is applied to one cleartext message of a deterministic handshake; afterwards neither side may be authenticated and the server must not have accepted a USERAUTH request. Unedited runs must end with equal session ids. For kex, cipher, MAC, compression and host key algorithm every ordered pair of non-empty permutation sub-lists of a 3-4 algorithm alphabet is negotiated for real and the result must be the first client entry the server supports (or KeyExchangeFailed).',
+   note='padding bytes of cleartext packets are not edited; slow DH groups get a sixth of the edits in quick; GSS kex not driven.'),
  'C01': dict(level='fault_enumeration', design='2/C01',
    technique='exhaustive enumeration of single faults (bit flips by region, truncation, drop, duplicate, swap, insertion, splice) by an on-path editor on the ciphertext of a live real client<->server session, for every negotiable cipher x MAC x compression combination and both directions; prefix-of-baseline oracle',
    text='For every configuration and direction a fault is applied at a chosen encrypted packet of a deterministic session; the receiving application must have received exactly the data of the packets before the first altered byte, nothing afterwards, and the receiver must end with an integrity/protocol error or stall and then fail with ConnectionLost at EOF. Quick covers every cipher x MAC pair plus both zlib variants with every cipher and every MAC, three target packets and boundary positions of each packet region; thorough covers the full product, every packet and every byte.',
